@@ -135,6 +135,14 @@ pub assume_specification[ String::len ](s: &String) -> (r: usize)
 pub assume_specification<T, F: FnOnce(T) -> bool>[ Option::<T>::is_some_and ](o: Option<T>, f: F) -> (r: bool)
     requires o.is_some() ==> call_requires(f, (o.unwrap(),)),
     ensures o.is_none() ==> !r, o.is_some() ==> call_ensures(f, (o.unwrap(),), r);
+/// `Option::or`
+pub assume_specification<T>[ Option::<T>::or ](a: Option<T>, b: Option<T>) -> (r: Option<T>)
+    ensures r == (if a.is_some() { a } else { b });
+/// `iter.take(n).collect()`: the first n elements (all of them when there are fewer)
+#[verifier::external_body]
+pub fn vec_take<T>(v: Vec<T>, n: usize) -> (r: Vec<T>)
+    ensures r@ == v@.subrange(0, if (n as int) < v@.len() { n as int } else { v@.len() as int })
+{ v.into_iter().take(n).collect() }
 /// `Result::unwrap_or`
 pub assume_specification<T, E>[ Result::<T, E>::unwrap_or ](r0: Result<T, E>, d: T) -> (r: T)
     ensures r == (match r0 { Ok(v) => v, Err(_) => d });
